@@ -185,7 +185,8 @@ pub fn short_hex(b: &[u8]) -> String {
 	if b.len() <= 96 {
 		mc_common::hex(b)
 	} else {
-		format!("{}..len{}..fnv{:016x}", mc_common::hex(&b[..48]), b.len(), fnv(&[b]))
+		// head, tail (TLV probes and truncations differ at the end), length and a digest of the whole
+		format!("{}..{}..len{}..fnv{:016x}", mc_common::hex(&b[..32]), mc_common::hex(&b[b.len() - 32..]), b.len(), fnv(&[b]))
 	}
 }
 
